@@ -212,10 +212,53 @@ var corpus = []struct{ name, src string }{
 	{"laxeq-method", "def lq(a: String, b: Int): bool then a.=~(b)\nprintln(lq(\"a\", 1).inspect)\n"},
 	{"waitgroup-negative", "using Std::Sync::WaitGroup\nw := WaitGroup(0)\ndo\n  w.end\ncatch e\n  println(\"err\")\nend\n"},
 	{"hash-literal-range-key", "h := { (1...5) => 1 }\nprintln(h.length.inspect)\n"},
+	{"return-if-then-pooled-call", "def rip01(a: Int)\n  Kernel.println(\"one\")\n  Kernel.println(\"two\")\n  Kernel.println(\"three\")\n  return if a > 5\n  Kernel.println(\"four\")\nend\nrip01(1)\nrip01(7)\nprintln(\"done\")\n"},
 	{"two-awaits-in-one-expression", "async def af01(a: Int): Int then a + 1\nasync def ag01(a: Int): Int\n  return (await af01(a)) + (await af01(1))\nend\nprintln(ag01(3).await_sync.inspect)\n"},
 	{"closure-reading-ivar-in-method", "class Foo01\n  attr n: Int\n  init(k: Int)\n    @n = k\n  end\n  def twice(a: Int): Int\n    f := -> @n * 2\n    f.() + a\n  end\nend\nprintln(Foo01(4).twice(1).inspect)\n"},
 	{"generator-yield-inside-for-in-over-generator", "def *g01(a: Int): Int\n  yield 1\n  2\nend\ndef *h01(a: Int): Int\n  for e in g01(a)\n    yield e * 2\n  end\n  1\nend\nfor e in h01(2)\n  println(e)\nend\n"},
 	{"neg-min-small-int", "def ng(a: Int): Int then -a\nprintln(ng(-9223372036854775807 - 1).inspect)\n"},
+}
+
+// ---------------------------------------------------------------- family D: mutation of a collection while it is iterated
+// Every (collection kind, iteration form, step at which the mutation happens, mutation sequence): the iteration
+// continues after the mutation until it stops by itself (or 12 more steps). Any Elk-level outcome is accepted; a
+// Go panic / fatal error is the violation (iterators keep an index/cursor into storage the mutation changes).
+type collD struct {
+	name, ctor, elem string // elem: an element expression of the collection's element type
+	muts []string
+}
+
+var listMuts = []string{"c.clear", "c.pop", "c.pop\nc.pop", "c.pop\nc.pop\nc.pop", "c.remove_at(0)", "c.remove_at(0)\nc.remove_at(0)", "c.remove_at(-1)",
+	"c.remove(%E)", "c << %E", "c.push(%E)", "c.append(%E, %E, %E, %E, %E, %E, %E, %E, %E)", "c[0] = %E", "c.grow(64)", "c.clear\nc << %E", "c.pop\nc << %E"}
+
+var collsD = []collD{
+	{"list-int", "[1, 2, 3, 4, 5]", "9", listMuts},
+	{"list-string", `["a", "b", "c", "d", "e"]`, `"z"`, listMuts},
+	{"list-float", "[1.5, 2.5, 3.5, 4.5, 5.5]", "9.5", listMuts},
+	{"list-uint8", "[1u8, 2u8, 3u8, 4u8, 5u8]", "9u8", listMuts},
+	{"list-mixed", `[1, "b", 3.5, :d, nil]`, "9", listMuts},
+	{"list-one", "[1]", "9", listMuts},
+	// HashSet#clear is declared but has no native implementation (known finding of C28): not used here
+	{"set-int", "^[1, 2, 3, 4, 5]", "9", []string{"c.remove(1)", "c.remove(5)", "c.remove(1)\nc.remove(2)\nc.remove(3)", "c << %E", "c.push(%E)", "c.append(10, 11, 12, 13, 14, 15, 16, 17, 18, 19, 20, 21)", "c.remove(1)\nc.remove(2)\nc.remove(3)\nc.remove(4)\nc.remove(5)"}},
+	{"set-string", `^["a", "b", "c"]`, `"z"`, []string{`c.remove("a")`, `c.remove("a")` + "\n" + `c.remove("b")` + "\n" + `c.remove("c")`, "c << %E", `c.append("p", "q", "r", "s", "t", "u", "v", "w", "x", "y")`}},
+	{"map-int", "{ 1 => 1, 2 => 2, 3 => 3, 4 => 4, 5 => 5 }", "9", []string{"c[9] = 9", "c[1] = 7", "j := 10\nwhile j < 40\n  c[j] = j\n  j += 1\nend"}},
+}
+
+var formsD = []string{"for-in", "iter-next"}
+
+func familyD(cl collD, form string, step int, mut string, id string) string {
+	mut = strings.ReplaceAll(mut, "%E", cl.elem)
+	var s strings.Builder
+	fmt.Fprintf(&s, "def d%s: Int\n  c := %s\n  k := 0\n", id, cl.ctor)
+	body := "    k += 1\n    if k == " + fmt.Sprint(step) + "\n      " + strings.ReplaceAll(mut, "\n", "\n      ") + "\n    end\n    break if k > " + fmt.Sprint(step+12) + "\n"
+	switch form {
+	case "for-in":
+		fmt.Fprintf(&s, "  for x in c\n%s  end\n", body)
+	case "iter-next":
+		fmt.Fprintf(&s, "  it := c.iter\n  do\n    loop\n      x := it.next\n  %s    end\n  catch :stop_iteration\n  end\n", strings.ReplaceAll(body, "\n    ", "\n      "))
+	}
+	fmt.Fprintf(&s, "  k + c.length\nend\nprintln(d%s().inspect)\n", id)
+	return s.String()
 }
 
 func run(r *engine.R, sig, src string, opts *elkrun.Options) {
@@ -243,7 +286,7 @@ func main() {
 	engine.Main(&engine.Spec{
 		Prop:  "C01",
 		Level: "exploration",
-		Rule: "(A) every combination of 6 binding kinds x 9 execution contexts (top level, method, method with defer, do-finally, closure, generator, async, nested async, go thread) x 6 uses of the bound local; (B) every misuse sequence of length <= 3 (thorough 5) over the operations of Mutex, RWMutex, WaitGroup, Once, Channel(0), Channel(1) on one object from one thread that a blocking model says cannot block; (C) one minimal program per crash found so far by any check; " +
+		Rule: "(A) every combination of 6 binding kinds x 9 execution contexts (top level, method, method with defer, do-finally, closure, generator, async, nested async, go thread) x 6 uses of the bound local; (B) every misuse sequence of length <= 3 (thorough 5) over the operations of Mutex, RWMutex, WaitGroup, Once, Channel(0), Channel(1) on one object from one thread that a blocking model says cannot block; (C) one minimal program per crash found so far by any check; (D) every (collection kind of 9: generic/unboxed lists, sets, map; iteration form for-in / explicit iterator; step 1..5 at which the collection is mutated; mutation sequence of up to 15 per kind: clear, pops, removals, pushes, growth, replacement) with the iteration continued after the mutation; " +
 			"oracle: the run ends with a value or an Elk error, never a Go panic/fatal/dead worker (the engine attributes a worker death to the running case); non-trivial = accepted programs (enumerated without repetition). Every other check also reports host crashes of its own program spaces.",
 		Assume: []string{"stack-limit exhaustion is excluded by construction (no unbounded recursion)", "the narrowing/invalidation family is enumerated by C02, std-library calls by C28, multi-threaded use of the primitives by C25"},
 		Setup:  func(c *engine.Ctx) { elkrun.Init() },
@@ -284,6 +327,20 @@ func main() {
 							run(r, "misuse prim="+p.name+" seq="+strings.Join(sq, ","), s.String(), nil)
 						}
 						r.Sample(p.name + ": " + strings.Join(part[len(part)-1], ", "))
+					})
+				}
+			}
+			for _, cl := range collsD {
+				for _, form := range formsD {
+					cl, form := cl, form
+					c.Case(fmt.Sprintf("D/%s/%s", cl.name, form), func(r *engine.R) {
+						for step := 1; step <= 5; step++ {
+							for mi, mut := range cl.muts {
+								seq++
+								src := familyD(cl, form, step, mut, fmt.Sprintf("01_%d", seq))
+								run(r, fmt.Sprintf("iteration=%s coll=%s mutation=%d", form, cl.name, mi), src, nil)
+							}
+						}
 					})
 				}
 			}
